@@ -181,7 +181,11 @@ def h_reconcile(ctx, case):
         rx = reals(ctx, 'r', (nleaf, len(ref)))
         leaves_sorted = sorted(names[-1])
         qm = CellByGeneMatrix(arr(ctx, qx), list(query), 'log2CPM')
-        rm = CellByGeneMatrix(arr(ctx, rx), list(ref), 'log2CPM',
+        # the leaf-mean matrix has its own column order
+        mo = ctx.perm('means_order', len(ref)) if case.get('perm_means') \
+            else list(range(len(ref)))
+        rm = CellByGeneMatrix(arr(ctx, rx[:, mo]), [ref[i] for i in mo],
+                              'log2CPM',
                               cell_identifiers=list(leaves_sorted))
         for p in all_par:
             k = parent_key(p)
@@ -250,6 +254,7 @@ HARNESSES = [
     Harness('reconcile_markers', h_reconcile, setup=setup,
             cases=[{'sizes': [2], 'genes': 3, 'perm_ref': True,
                     'perm_query': True, 'dups': True},
+                   {'sizes': [2], 'genes': 3, 'perm_means': True},
                    {'sizes': [2], 'genes': 2, 'foreign': True},
                    {'sizes': [2, 3], 'genes': 2, 'max_min': 2},
                    {'sizes': [1, 2], 'genes': 2, 'foreign': True},
